@@ -38,6 +38,7 @@ type Config struct {
 	// NoPrior: the WAL holds no frame when the race starts, so that after a log restart the second transaction's
 	// frames land on the slots of the first one's (a stale page-to-frame mapping then points at another page).
 	NoPrior bool `json:"noprior,omitempty"`
+	// Hot (WAL mode): the log ends in frames of a rolled-back statement (spilled pages, no commit frame).
 	// Hot (rollback-journal mode): an application died in the middle of a transaction before the race starts: pages
 	// already overwritten in the file, a valid journal next to it. The export has to roll it back first.
 	Hot bool `json:"hot,omitempty"`
@@ -94,6 +95,14 @@ func harness(cfgJSON json.RawMessage) sched.Harness {
 			}
 			img = w.Intended
 			rec(img)
+			if cfg.Hot {
+				// a statement whose dirty pages spilled into the log and that was then rolled back: valid frames (salt,
+				// running checksum) after the last commit frame, which belong to no position
+				w = setup.RunWTx(pager.WTx{Frames: []uint32{2, 3}, Outcome: "rollback"}, img)
+				if w.Err != nil || w.Committed {
+					return fmt.Sprintf("harness-error: setup wal rollback %v at %s", w.Err, w.ErrStep), nil
+				}
+			}
 			setup.Close()
 		}
 		if cfg.Hot && !cfg.WAL {
@@ -176,7 +185,7 @@ func harness(cfgJSON json.RawMessage) sched.Harness {
 			}
 			defer c.Close()
 			cur := img
-			if cfg.Hot {
+			if cfg.Hot && !cfg.WAL {
 				// a real writer would first roll the dead application's journal back itself; this one lets the export do
 				// it and starts when the journal is gone
 				for tries := 0; n.M.Exists("db-journal"); tries++ {
@@ -351,6 +360,7 @@ func TestCheck(t *testing.T) {
 		{WAL: true, Op: "export-http", Ckpt: true, Shrink: true},
 		{WAL: true, Op: "export", Ckpt: true, NoPrior: true},
 		{WAL: false, Op: "export", Hot: true},
+		{WAL: true, Op: "export", Hot: true, Recover: true},
 	}
 	jobBudget := 60 * time.Second
 	if run.Thorough() {
